@@ -181,13 +181,13 @@ func Open(fileName string, opts *Options) (*AppendableFile, error) {
 		r := bufio.NewReader(f)
 
 		mLenBs := make([]byte, 4)
-		_, err := r.Read(mLenBs)
+		_, err := io.ReadFull(r, mLenBs)
 		if err != nil {
 			return nil, ErrCorruptedMetadata
 		}
 
 		mBs := make([]byte, binary.BigEndian.Uint32(mLenBs))
-		_, err = r.Read(mBs)
+		_, err = io.ReadFull(r, mBs)
 		if err != nil {
 			return nil, ErrCorruptedMetadata
 		}
